@@ -163,6 +163,10 @@ func runC02(o Opts) error {
 						}
 					}
 					mut([]byte{0x20, 0, 0, 0, 0, 0, 0}, "datetime-patterns")
+					// the uninitialised-clock date prefix with other times of day, valid and not
+					for _, t := range [][]byte{{0, 0, 1}, {0x12, 0x34, 0x56}, {0x0a, 0xbc, 0xde}, {0x12, 0x3f, 0}, {0x24, 0, 0}} {
+						mut(append([]byte{0x20, 0, 0, 0}, t...), "datetime-patterns")
+					}
 				case "types.SystemDate":
 					for _, p := range [][]byte{{0, 0, 0}, {0x24, 0x02, 0x29}, {0x23, 0x02, 0x29}, {0x69, 0x01, 0x01}, {0x68, 0x12, 0x31}, {0x99, 0x12, 0x31}, {0x00, 0x01, 0x01}, {0x24, 0x13, 0x01}, {0x24, 0x00, 0x01}, {0x24, 0x01, 0x00}, {0x2a, 0x01, 0x01}, {0x24, 0x01, 0x32}} {
 						mut(p, "sysdate-patterns")
